@@ -247,7 +247,10 @@ def main(argv):
             'checker_cmd': 'cd /verif/lean && lake build ' + ' '.join(prop['modules']) + '   (Lean 4.33.0 kernel; axioms audited from #print axioms)',
             'trusted_base': prop.get('trusted_base', []) + [
                 'Lean 4.33.0 kernel', 'axioms: propext, Classical.choice, Quot.sound only (audited on every run)',
-                'dumpconsts (Rust) regenerating Inkayaku/Gen from the current build', 'the line-protocol harness and generators (differential testing)'],
+                'dumpconsts (Rust) regenerating Inkayaku/Gen from the current build', 'the line-protocol harness and generators (differential testing)']
+                + (['rs2lean (/verif/translator) translating the Rust functions named in Props/Translated to Lean on every run, and the semantics it gives to the Rust subset (Gen/Rs/Prelude.lean header)']
+                   if any('Translated' in m for m in prop['modules']) else []),
+            'translated_modules': [m for m in prop['modules'] if 'Translated' in m],
             'theorems': proof['axioms'], 'proof_problems': proof['problems'],
             'evaluations': stats.get('evaluations', 0), 'distinct_nontrivial': stats.get('distinct_nontrivial', 0),
             'rule': prop.get('rule', 'cases are generated by the Lean model / Python generators from VERIF_SEED; distinct = distinct request lines; '
